@@ -17,6 +17,7 @@ Section StmtInd.
   Hypothesis Hret : forall k, P (Ret k).
   Hypothesis Hblock : forall k b, Forall P b -> P (Block k b).
   Hypothesis Halt : forall cs, Forall (Forall P) cs -> P (Alt cs).
+  Hypothesis Hnil : P Nil.
   Fixpoint stmt_ind' (x:stmt) : P x :=
     match x with
     | Call t te => Hcall t te
@@ -32,11 +33,12 @@ Section StmtInd.
                                                           match l with [] => Forall_nil _ | y :: r' => Forall_cons _ (stmt_ind' y) (go r') end) c)
                                                     (goc r)
                             end) cs)
+    | Nil => Hnil
     end.
 End StmtInd.
 
 (* ---- instructions ---- *)
-Inductive instr := IEmit (e:event) | ICall (t te:id) (last:bool).
+Inductive instr := IEmit (e:event) | ICall (t te:id) (last:bool) | IFail (* the statement without `Stmt`: the walk ends here *).
 
 Section Flat.
   Variable a : id.
@@ -64,6 +66,7 @@ Section Flat.
                ++ goc r false
            end) cs true
         ++ [IEmit Close]
+    | Nil => [IFail]
     end.
   Definition flat_list : list stmt -> bool -> list instr :=
     fix go (l:list stmt) (lastp:bool) {struct l} : list instr :=
@@ -89,16 +92,18 @@ End Flat.
 (* ---- the fold ---- *)
 Section Run.
   Variable call : st -> id -> id -> bool -> outcome st.
+  Variable np : bool.
   Fixpoint run (il:list instr) (s:st) : outcome st :=
     match il with
     | [] => Ok s
     | IEmit e :: r => run r (emit s e)
     | ICall t te last :: r => bind (call s t te last) (run r)
+    | IFail :: _ => nil_fail np
     end.
   Lemma run_app x y s : run (x ++ y) s = bind (run x s) (run y).
   Proof.
     revert s. induction x as [|i x IH]; intros s; [reflexivity|].
-    destruct i as [e|t te last]; cbn [run Datatypes.app]; [apply IH|].
+    destruct i as [e|t te last|]; cbn [run Datatypes.app]; [apply IH| |destruct np; reflexivity].
     destruct (call s t te last); cbn [bind]; auto.
   Qed.
 
@@ -106,55 +111,55 @@ Section Run.
   Variable sndr : part.
 
   Lemma walk_block s k b last :
-    walk_stmt call a sndr s (Block k b) last
-    = bind (walk_list call a sndr (emit s (Open (kw_of k))) b last) (fun s' => Ok (emit s' Close)).
+    walk_stmt call np a sndr s (Block k b) last
+    = bind (walk_list call np a sndr (emit s (Open (kw_of k))) b last) (fun s' => Ok (emit s' Close)).
   Proof. reflexivity. Qed.
   Lemma walk_alt s cs last :
-    walk_stmt call a sndr s (Alt cs) last = bind (walk_alts call a sndr last s cs true) (fun s' => Ok (emit s' Close)).
+    walk_stmt call np a sndr s (Alt cs) last = bind (walk_alts call np a sndr last s cs true) (fun s' => Ok (emit s' Close)).
   Proof. reflexivity. Qed.
   Lemma walk_list_cons s y r lastp :
-    walk_list call a sndr s (y :: r) lastp
-    = bind (walk_stmt call a sndr s y (lastp && is_nil r)) (fun s' => walk_list call a sndr s' r lastp).
+    walk_list call np a sndr s (y :: r) lastp
+    = bind (walk_stmt call np a sndr s y (lastp && is_nil r)) (fun s' => walk_list call np a sndr s' r lastp).
   Proof. reflexivity. Qed.
   Lemma walk_alts_cons last s c r first :
-    walk_alts call a sndr last s (c :: r) first
-    = bind (walk_list call a sndr (emit s (if first then OpenAlt else Else)) c (last && is_nil r))
-           (fun s' => walk_alts call a sndr last s' r false).
+    walk_alts call np a sndr last s (c :: r) first
+    = bind (walk_list call np a sndr (emit s (if first then OpenAlt else Else)) c (last && is_nil r))
+           (fun s' => walk_alts call np a sndr last s' r false).
   Proof. reflexivity. Qed.
 
   Lemma walk_list_flat_of l :
-    Forall (fun x => forall s last, walk_stmt call a sndr s x last = run (flat_stmt a sndr x last) s) l ->
-    forall s lastp, walk_list call a sndr s l lastp = run (flat_list a sndr l lastp) s.
+    Forall (fun x => forall s last, walk_stmt call np a sndr s x last = run (flat_stmt a sndr x last) s) l ->
+    forall s lastp, walk_list call np a sndr s l lastp = run (flat_list a sndr l lastp) s.
   Proof.
     induction 1 as [|y r Hy _ IH]; intros s lastp; [reflexivity|].
     rewrite walk_list_cons, flat_list_cons, run_app, Hy.
     destruct (run _ s); cbn [bind]; auto.
   Qed.
 
-  Lemma walk_stmt_flat x : forall s last, walk_stmt call a sndr s x last = run (flat_stmt a sndr x last) s.
+  Lemma walk_stmt_flat x : forall s last, walk_stmt call np a sndr s x last = run (flat_stmt a sndr x last) s.
   Proof.
-    induction x as [t te| | |k|k b IH|cs IH] using stmt_ind'; intros s last; try reflexivity.
+    induction x as [t te| | |k|k b IH|cs IH|] using stmt_ind'; intros s last; try reflexivity.
     - cbn [walk_stmt flat_stmt run]. destruct (call s t te last); reflexivity.
     - rewrite walk_block, flat_block. cbn [run]. rewrite run_app, (walk_list_flat_of b IH).
       destruct (run _ _); reflexivity.
     - rewrite walk_alt, flat_alt, run_app.
-      assert (H : forall s first, walk_alts call a sndr last s cs first = run (flat_alts a sndr last cs first) s).
+      assert (H : forall s first, walk_alts call np a sndr last s cs first = run (flat_alts a sndr last cs first) s).
       { clear s. induction IH as [|c r Hc _ IHr]; intros s first; [reflexivity|].
         rewrite walk_alts_cons, flat_alts_cons. cbn [run]. rewrite run_app, (walk_list_flat_of c Hc).
         destruct (run _ _); cbn [bind]; auto. }
       rewrite H. destruct (run _ _); reflexivity.
   Qed.
 
-  Theorem walk_flat l s lastp : walk_list call a sndr s l lastp = run (flat_list a sndr l lastp) s.
+  Theorem walk_flat l s lastp : walk_list call np a sndr s l lastp = run (flat_list a sndr l lastp) s.
   Proof. apply walk_list_flat_of. apply Forall_forall. intros x _. apply walk_stmt_flat. Qed.
 End Run.
 
 (* ---- pure facts about the instruction list ---- *)
 Definition calls_of (il:list instr) : list (id*id) :=
-  flat_map (fun i => match i with ICall t te _ => [(t,te)] | IEmit _ => [] end) il.
+  flat_map (fun i => match i with ICall t te _ => [(t,te)] | _ => [] end) il.
 Definition skel (il:list instr) : list event :=
-  flat_map (fun i => match i with IEmit e => [e] | ICall _ _ _ => [] end) il.
-Definition is_emit (i:instr) : bool := match i with IEmit _ => true | ICall _ _ _ => false end.
+  flat_map (fun i => match i with IEmit e => [e] | _ => [] end) il.
+Definition is_emit (i:instr) : bool := match i with ICall _ _ _ => false | _ => true end.   (* not a call *)
 Definition unflagged (il:list instr) : bool := forallb (fun i => match i with ICall _ _ true => false | _ => true end) il.
 (* after a call flagged last no further call follows *)
 Fixpoint flag_ok (il:list instr) : bool :=
@@ -169,18 +174,18 @@ Proof. apply forallb_app. Qed.
 Lemma unflagged_flag_ok il : unflagged il = true -> flag_ok il = true.
 Proof.
   induction il as [|i r IH]; [reflexivity|]. cbn [unflagged forallb flag_ok]. intros H. apply andb_prop in H as [H1 H2].
-  destruct i as [e|t te [|]]; try discriminate; apply IH, H2.
+  destruct i as [e|t te [|]|]; try discriminate; apply IH, H2.
 Qed.
 Lemma flag_ok_app_l x y : unflagged x = true -> flag_ok y = true -> flag_ok (x ++ y) = true.
 Proof.
   induction x as [|i r IH]; [auto|]. cbn [unflagged forallb flag_ok Datatypes.app]. intros H Hy. apply andb_prop in H as [H1 H2].
-  destruct i as [e|t te [|]]; try discriminate; apply IH; assumption.
+  destruct i as [e|t te [|]|]; try discriminate; apply IH; assumption.
 Qed.
 Lemma flag_ok_app_r x y : flag_ok x = true -> forallb is_emit y = true -> flag_ok (x ++ y) = true.
 Proof.
   induction x as [|i r IH]; cbn [flag_ok Datatypes.app]; intros Hx Hy.
-  - apply unflagged_flag_ok. unfold unflagged. rewrite forallb_forall in *. intros i Hi. specialize (Hy i Hi). destruct i; [reflexivity|discriminate].
-  - destruct i as [e|t te [|]]; try (apply IH; assumption). rewrite forallb_app, Hx, Hy. reflexivity.
+  - apply unflagged_flag_ok. unfold unflagged. rewrite forallb_forall in *. intros i Hi. specialize (Hy i Hi). destruct i; [reflexivity|discriminate|reflexivity].
+  - destruct i as [e|t te [|]|]; try (apply IH; assumption). rewrite forallb_app, Hx, Hy. reflexivity.
 Qed.
 
 Section FlatFacts.
@@ -199,7 +204,7 @@ Section FlatFacts.
   Qed.
   Lemma calls_flat_stmt x : forall last, calls_of (fstmt x last) = calls_stmt x.
   Proof.
-    induction x as [t te| | |k|k b IH|cs IH] using stmt_ind'; intros last; try reflexivity.
+    induction x as [t te| | |k|k b IH|cs IH|] using stmt_ind'; intros last; try reflexivity.
     - rewrite flat_block. change (IEmit (Open (kw_of k)) :: flist b last ++ [IEmit Close]) with ([IEmit (Open (kw_of k))] ++ flist b last ++ [IEmit Close]).
       rewrite !calls_of_app, (calls_flat_list_of b IH). cbn. rewrite app_nil_r. reflexivity.
     - rewrite flat_alt, calls_of_app. cbn [calls_of flat_map]. rewrite app_nil_r.
@@ -220,7 +225,7 @@ Section FlatFacts.
   Qed.
   Lemma unflagged_stmt x : unflagged (fstmt x false) = true.
   Proof.
-    induction x as [t te| | |k|k b IH|cs IH] using stmt_ind'; try reflexivity.
+    induction x as [t te| | |k|k b IH|cs IH|] using stmt_ind'; try reflexivity.
     - rewrite flat_block. cbn [unflagged forallb]. fold (unflagged (flist b false ++ [IEmit Close])).
       rewrite unflagged_app, (unflagged_list_of b IH). reflexivity.
     - rewrite flat_alt, unflagged_app.
@@ -242,7 +247,7 @@ Section FlatFacts.
   Qed.
   Lemma flag_ok_stmt x : flag_ok (fstmt x true) = true.
   Proof.
-    induction x as [t te| | |k|k b IH|cs IH] using stmt_ind'; try reflexivity.
+    induction x as [t te| | |k|k b IH|cs IH|] using stmt_ind'; try reflexivity.
     - rewrite flat_block. cbn [flag_ok]. apply flag_ok_app_r; [apply (flag_ok_list_of b IH)|reflexivity].
     - rewrite flat_alt. apply flag_ok_app_r; [|reflexivity].
       assert (H : forall first, flag_ok (falts true cs first) = true); [|apply H].
@@ -266,14 +271,14 @@ Section FlatFacts.
     | Open _ | OpenAlt | Else | Close => True
     | _ => False
     end.
-  Definition instr_ok (i:instr) : Prop := match i with IEmit e => walk_ev e | ICall _ _ _ => True end.
+  Definition instr_ok (i:instr) : Prop := match i with IEmit e => walk_ev e | _ => True end.
   Lemma instrs_ok_list_of l : Forall (fun x => forall last, Forall instr_ok (fstmt x last)) l -> forall lastp, Forall instr_ok (flist l lastp).
   Proof.
     induction 1 as [|y r Hy _ IH]; intros lastp; [constructor|]. rewrite flat_list_cons. apply Forall_app. split; [apply Hy|apply IH].
   Qed.
   Lemma instrs_ok_stmt x : forall last, Forall instr_ok (fstmt x last).
   Proof.
-    induction x as [t te| | |k|k b IH|cs IH] using stmt_ind'; intros last;
+    induction x as [t te| | |k|k b IH|cs IH|] using stmt_ind'; intros last;
       try (repeat constructor; fail).
     - rewrite flat_block. constructor; [exact I|]. apply Forall_app. split; [apply (instrs_ok_list_of b IH)|repeat constructor].
     - rewrite flat_alt. apply Forall_app. split; [|repeat constructor].
@@ -287,6 +292,7 @@ End FlatFacts.
 (* ---- generic preservation through the fold ---- *)
 Section RunPres.
   Variable call : st -> id -> id -> bool -> outcome st.
+  Variable np : bool.
   Variable a : id.
   Variable sndr : part.
   Variable R : st -> st -> Prop.
@@ -294,15 +300,16 @@ Section RunPres.
   Hypothesis Rtrans : forall s1 s2 s3, R s1 s2 -> R s2 s3 -> R s1 s3.
   Hypothesis Remit : forall s e, walk_ev a sndr e -> R s (emit s e).
   Hypothesis Rcall : forall s t te last s', call s t te last = Ok s' -> R s s'.
-  Lemma run_pres il : Forall (instr_ok a sndr) il -> forall s s', run call il s = Ok s' -> R s s'.
+  Lemma run_pres il : Forall (instr_ok a sndr) il -> forall s s', run call np il s = Ok s' -> R s s'.
   Proof.
     induction 1 as [|i r Hi _ IH]; intros s s' H; cbn [run] in H.
     - injection H as <-. apply Rrefl.
-    - destruct i as [e|t te last].
+    - destruct i as [e|t te last|].
       + eapply Rtrans; [apply Remit, Hi|apply IH, H].
       + destruct (call s t te last) as [s1| | |] eqn:E; try discriminate. cbn [bind] in H.
         eapply Rtrans; [eapply Rcall, E|apply IH, H].
+      + destruct np; discriminate.
   Qed.
-  Theorem walk_pres l lastp s s' : walk_list call a sndr s l lastp = Ok s' -> R s s'.
+  Theorem walk_pres l lastp s s' : walk_list call np a sndr s l lastp = Ok s' -> R s s'.
   Proof. rewrite walk_flat. apply run_pres, instrs_ok_list. Qed.
 End RunPres.
